@@ -42,8 +42,15 @@ Proof.
   apply Hf. split; assumption.
 Qed.
 
+(* the source of the used-analysis and of the sweep still has the control skeleton the model was written against
+   (regenerated Gen/GcSkeleton.v = the pinned copy in Proofs/GcPinned.v): roots, edges, residue, sweep order *)
+From WV Require Import Gen.GcSkeleton Proofs.GcPinned.
+Theorem c06_source_skeleton : used_new_skeleton = expected_used_new /\ used_visitor_skeleton = expected_used_visitor /\ gc_run_skeleton = expected_gc_run.
+Proof. exact used_skeleton_pinned. Qed.
+
 Print Assumptions c06_reachable_kept.
 Print Assumptions c06_closed.
 Print Assumptions c06_roots_kept.
 Print Assumptions c06_frame.
 Print Assumptions c06_only_unused_deleted.
+Print Assumptions c06_source_skeleton.
